@@ -352,6 +352,21 @@ theorem attribute_required_sound (d : AttrDecl) (f : Field) (h : attrField d = s
 
 example : attrField { use := .required } = some { init := true, default := .missing } := by decide
 
+/-- **A fixed attribute given with another value is rejected** (`init=False` fields are not assigned,
+but `ElementNode.bind_attr` checks the given value against the fixed one): the parser is not
+more lenient than the schema here. -/
+theorem attribute_fixed_guard (d : AttrDecl) (f v : Str) (hf : d.fixed = some f) (hd : d.default = none)
+    (hu : d.use ≠ .prohibited) (hv : v ≠ f) : readAttr (attrField d) (some v) = none := by
+  obtain ⟨use, dflt, fx, tp⟩ := d
+  simp only at hf hd hu
+  subst hf hd
+  cases use <;> cases tp <;>
+    simp_all [attrField, fieldOf, sanitize, mapAttribute, shouldResetRequired, shouldResetDefault,
+      defaultValue, typeIsObject, useBounds, GAttr.isList, readAttr]
+
+example : readAttr (attrField { fixed := some ['f'] }) (some ['g']) = none :=
+  attribute_fixed_guard { fixed := some ['f'] } ['f'] ['g'] rfl rfl (by decide) (by decide)
+
 /-- a prohibited attribute gives no field: under `fail_on_unknown_attributes` a document that
 carries it is rejected, as the schema demands -/
 theorem attribute_prohibited (d : AttrDecl) (h : d.use = .prohibited) : attrField d = none := by
